@@ -9,9 +9,12 @@ from common import (OUT, Report, ToolError, build_harness, coverage_zero_actions
 from bin_checks import export_db, validate_cases, report_fails, cleanup, _cfg, C01_CLAUSES
 
 CONFIGS_QUICK = [
-    ("Part", ["Color", "Color3uint8", "BrickColor", "Size"], 2),
+    # 4th element: a sibling of ANOTHER known class in the same file that carries the same property names and whose
+    # database defaults differ (TrussPart.Size 2,2,2 / Part.Size 4,1.2,2; TextButton.Text "Button" / TextLabel.Text
+    # "Label"): a column's default is the default of ITS class, whichever class the writer met first
+    ("Part", ["Color", "Color3uint8", "BrickColor", "Size"], 2, ("TrussPart", ["Size", "Color"])),
     ("Part", ["Color3uint8", "brickColor"], 3),
-    ("TextLabel", ["Font", "FontFace", "Text"], 2),
+    ("TextLabel", ["Font", "FontFace", "Text"], 2, ("TextButton", ["Text", "FontFace"])),
     ("ScreenGui", ["IgnoreGuiInset", "ScreenInsets"], 2),
     ("MeshPart", ["MeshId", "MeshContent", "TextureID"], 2),
     ("VerifUnknownClass", ["AlphaS", "BetaV", "GammaI"], 2),
@@ -66,7 +69,9 @@ def run(pid, tier, seed, replay=None):
     if "Invariant ExplicitWins is violated" not in r["out"]:
         raise ToolError("sanity: the 'any alias' rule no longer violates ExplicitWins")
 
-    for ci, (cls, spellings, n) in enumerate(configs):
+    for ci, config in enumerate(configs):
+        cls, spellings, n = config[:3]
+        companion = config[3] if len(config) > 3 else None
         r = tlc("MCBinaryColumns", col_cfg("col%d" % ci, cls, spellings, n), workers=10, env=env, timeout=3000,
                 coverage=True, xmx="8g")
         v = tlc_violation(r)
@@ -86,6 +91,8 @@ def run(pid, tier, seed, replay=None):
             for i, p in enumerate(pops):
                 case = json.loads(p)
                 case["ep"] = "pop:%s:%d:%d" % (cls, ci, i)
+                if companion:
+                    case["companion"] = {"class": companion[0], "props": companion[1], "first": i % 2 == 0}
                 f.write(json.dumps(case) + "\n")
         trace = os.path.join(OUT, "C08_pop_%d_trace.ndjson" % ci)
         # the property maps iterate in a per-process hash order: every population is executed in several
